@@ -550,7 +550,7 @@ class index:
         return missing_scopes
 
     def log(self, message):
-        self._log.write(message + "\n")
+        self._log.write(str(message) + "\n")
 
     def log2(self, message):
         f = sys._getframe(1)
